@@ -57,6 +57,38 @@ type comparator struct {
 	keys    []string
 	strict  map[string]bool
 	problem string
+	bools   map[string]bool // boolean locals of the body, as evaluated so far (less := a.x < b.x; return less)
+	// arg-max guards only: a conjunct that does not look at the carried element (`strings.Contains(mime, k)`) filters
+	// the candidates and is taken for true; only in positive conjunctive position
+	allowOpaque bool
+	neg         bool
+	disj        int
+}
+
+// mentionsJ: the expression names the j side (the carried element) somewhere.
+func (cm *comparator) mentionsJ(e ast.Expr) bool {
+	found := false
+	ast.Inspect(e, func(n ast.Node) bool {
+		switch x := n.(type) {
+		case *ast.Ident:
+			if cm.locals[x.Name] == "j" || (cm.params[1] != "\x00" && x.Name == cm.params[1]) {
+				found = true
+			}
+		case *ast.FuncLit:
+			found = true
+		}
+		return !found
+	})
+	return found
+}
+
+func (cm *comparator) evalCond(e ast.Expr, rel map[string]int) (bool, bool) {
+	v, ok := cm.evalCond0(e, rel)
+	if !ok && cm.allowOpaque && !cm.neg && cm.disj == 0 && !cm.mentionsJ(e) {
+		cm.problem = ""
+		return true, true
+	}
+	return v, ok
 }
 
 func (p *Program) infoFor(fn *ssa.Function) *types.Info {
@@ -135,6 +167,24 @@ func (cm *comparator) evalBlock(stmts []ast.Stmt, rel map[string]int) (res bool,
 	for _, s := range stmts {
 		switch x := s.(type) {
 		case *ast.AssignStmt:
+			// a boolean local: evaluated here, read later
+			if len(x.Lhs) == 1 && len(x.Rhs) == 1 && (x.Tok == token.DEFINE || x.Tok == token.ASSIGN) {
+				if id, isId := x.Lhs[0].(*ast.Ident); isId && cm.info != nil {
+					if tv, has := cm.info.Types[x.Rhs[0]]; has && tv.Type != nil {
+						if bt, isB := tv.Type.Underlying().(*types.Basic); isB && bt.Info()&types.IsBoolean != 0 {
+							v, ok := cm.evalCond(x.Rhs[0], rel)
+							if !ok {
+								return false, false, false
+							}
+							if cm.bools == nil {
+								cm.bools = map[string]bool{}
+							}
+							cm.bools[id.Name] = v
+							continue
+						}
+					}
+				}
+			}
 			// local bindings handled in setup; anything else unsupported
 			if x.Tok != token.DEFINE {
 				cm.problem = "assignment in comparator body"
@@ -221,7 +271,7 @@ func (cm *comparator) evalBlock(stmts []ast.Stmt, rel map[string]int) (res bool,
 	return false, false, true
 }
 
-func (cm *comparator) evalCond(e ast.Expr, rel map[string]int) (bool, bool) {
+func (cm *comparator) evalCond0(e ast.Expr, rel map[string]int) (bool, bool) {
 	e = unparen(e)
 	switch x := e.(type) {
 	case *ast.Ident:
@@ -231,20 +281,37 @@ func (cm *comparator) evalCond(e ast.Expr, rel map[string]int) (bool, bool) {
 		if x.Name == "false" {
 			return false, true
 		}
+		if v, has := cm.bools[x.Name]; has {
+			return v, true
+		}
 	case *ast.UnaryExpr:
 		if x.Op == token.NOT {
+			cm.neg = !cm.neg
 			v, ok := cm.evalCond(x.X, rel)
+			cm.neg = !cm.neg
 			return !v, ok
 		}
 	case *ast.BinaryExpr:
 		switch x.Op {
 		case token.LAND:
+			if cm.neg {
+				cm.disj++
+			}
 			a, ok1 := cm.evalCond(x.X, rel)
 			b, ok2 := cm.evalCond(x.Y, rel)
+			if cm.neg {
+				cm.disj--
+			}
 			return a && b, ok1 && ok2
 		case token.LOR:
+			if !cm.neg {
+				cm.disj++
+			}
 			a, ok1 := cm.evalCond(x.X, rel)
 			b, ok2 := cm.evalCond(x.Y, rel)
+			if !cm.neg {
+				cm.disj--
+			}
 			return a || b, ok1 && ok2
 		case token.LSS, token.GTR, token.LEQ, token.GEQ, token.EQL, token.NEQ:
 			l, okl := cm.operand(x.X)
@@ -341,7 +408,8 @@ func (cm *comparator) evalCall(call *ast.CallExpr, rel map[string]int) (bool, bo
 	if decl == nil || decl.Body == nil {
 		return false, false
 	}
-	sub := &comparator{fn: cm.fn, body: decl.Body, info: cm.info, locals: map[string]string{}, prefix: map[string]string{}, strict: cm.strict, keys: cm.keys, prog: cm.prog, depth: cm.depth + 1, jStrip: cm.jStrip, ident: cm.ident}
+	sub := &comparator{fn: cm.fn, body: decl.Body, info: cm.info, locals: map[string]string{}, prefix: map[string]string{}, strict: cm.strict, keys: cm.keys, prog: cm.prog, depth: cm.depth + 1, jStrip: cm.jStrip, ident: cm.ident,
+		allowOpaque: cm.allowOpaque, neg: cm.neg, disj: cm.disj}
 	sub.params = [2]string{"\x00", "\x00"}
 	bind := func(name string, e ast.Expr) bool {
 		if name == "" || name == "_" {
@@ -362,7 +430,8 @@ func (cm *comparator) evalCall(call *ast.CallExpr, rel map[string]int) (bool, bo
 		}
 		op, _ := cm.operandAny(e)
 		if op.side == "" {
-			return false
+			// something that is neither element: the helper may use it to filter (arg-max guards only)
+			return cm.allowOpaque && !cm.mentionsJ(e)
 		}
 		sub.locals[name] = op.side
 		sub.prefix[name] = op.key
@@ -1362,7 +1431,7 @@ func ruleC03e(c *Ctx) {
 // comparison whose last key is the key itself, compared strictly. Then "keep the element the guard prefers" selects
 // the same element in every iteration order.
 func semanticArgmaxGuard(p *Program, info *types.Info, guard ast.Expr, keyName, bestName, bestField string) bool {
-	cm := &comparator{info: info, locals: map[string]string{keyName: "i", bestName: "j"}, prefix: map[string]string{}, strict: map[string]bool{}, prog: p, jStrip: bestField, ident: true}
+	cm := &comparator{info: info, locals: map[string]string{keyName: "i", bestName: "j"}, prefix: map[string]string{}, strict: map[string]bool{}, prog: p, jStrip: bestField, ident: true, allowOpaque: true}
 	cm.params = [2]string{"\x00", "\x00"}
 	eval := func(rel map[string]int) (bool, bool) {
 		cm.problem = ""
